@@ -126,6 +126,10 @@ extern "C" void c19_run()
         delete oa[a];
         oa[a] = nullptr;
         break;
+      case C19_COPY_OBSERVER: ob[a] = new Observer(*ob[b]); break;      // e.g. the copy of an object that has an Observer member
+      case C19_COPY_OBSERVABLE: oa[a] = new Observable(*oa[b]); break;  // ... or an Observable base / member
+      case C19_ASSIGN_OBSERVER: *ob[a] = *ob[b]; break;
+      case C19_ASSIGN_OBSERVABLE: *oa[a] = *oa[b]; break;
       }
     }
     c19_obs_done(&op, res);
